@@ -59,6 +59,15 @@ type refModel struct {
 	queue      []qev
 	lastNotify hsms.ConnState
 	notified   bool
+	traj       []hsms.ConnState // every state the reference entered, in order
+	notifyIdx  int              // trajectory index of the last notified state
+}
+
+// note appends the reference state to the trajectory when it changed.
+func (r *refModel) note() {
+	if len(r.traj) == 0 || r.traj[len(r.traj)-1] != r.A {
+		r.traj = append(r.traj, r.A)
+	}
 }
 
 func (r *refModel) commit(a action, implRet bool) (wantRet bool) {
@@ -169,7 +178,7 @@ type gfail struct {
 // every action; it returns the canonical state key and the enabled actions.
 func replayGraph(hist []action) (key string, enabled []action, fail *gfail) {
 	v := hsms.VerifNewSupervisor()
-	r := &refModel{A: hsms.NotConnectedState, lastNotify: hsms.NotConnectedState}
+	r := &refModel{A: hsms.NotConnectedState, lastNotify: hsms.NotConnectedState, traj: []hsms.ConnState{hsms.NotConnectedState}}
 	var log []string
 	bad := func(k, f string, a ...any) {
 		if fail == nil {
@@ -238,6 +247,7 @@ func replayGraph(hist []action) (key string, enabled []action, fail *gfail) {
 						}
 						// the landing commit is linearised before the step's own effect
 						r.commit(hc, ret)
+						r.note()
 					}
 				}
 			}
@@ -254,6 +264,7 @@ func replayGraph(hist []action) (key string, enabled []action, fail *gfail) {
 			desc = strings.Replace(desc, "step", "step("+evName[ev]+")", 1)
 			log = append(log, desc)
 		}
+		r.note()
 		// ---- oracle after every action ----
 		if got := v.State(); got != r.A {
 			cause := ""
@@ -272,6 +283,20 @@ func replayGraph(hist []action) (key string, enabled []action, fail *gfail) {
 			}
 			r.lastNotify = n[1]
 			r.notified = true
+			// a notification (and the reaction fired with it) must report a state the
+			// connection really entered, in order: the sequence of notified states is a
+			// subsequence of the reference's state trajectory (intermediate states may be
+			// skipped when the supervisor lags, phantom states may not appear)
+			found := false
+			for j := r.notifyIdx + 1; j < len(r.traj); j++ {
+				if r.traj[j] == n[1] {
+					r.notifyIdx, found = j, true
+					break
+				}
+			}
+			if !found {
+				bad(fmt.Sprintf("graph:notify-phantom:%v->%v", n[0], n[1]), "notification/reaction %v->%v reports a state the connection did not enter after the previously notified one (reference trajectory %v, last notified index %d)", n[0], n[1], r.traj, r.notifyIdx)
+			}
 		}
 		if len(v.Queue) == 0 && r.lastNotify != v.State() && fail == nil {
 			bad(fmt.Sprintf("graph:notify-last:last=%v:state=%v", r.lastNotify, v.State()), "event queue empty but the last notification's next=%v differs from State()=%v", r.lastNotify, v.State())
@@ -294,8 +319,8 @@ func replayGraph(hist []action) (key string, enabled []action, fail *gfail) {
 			qs[i] += fmt.Sprintf("@g%d", r.gens-r.queue[i].token) // raised by the current (0) or an older generation
 		}
 	}
-	key = fmt.Sprintf("%v|%v|%v|%s|ref:%v,%v,%v,%v,armed=%d,discs=%d,gens=%d,t7=%d,ln=%v", v.State(), v.LastReacted(), v.Closed(), strings.Join(qs, ","),
-		r.A, r.connected, r.closeReq, r.closeDone, boolInt(r.armed != 0)*(1+r.dwell-r.armed), r.discs, r.gens, r.t7s, r.lastNotify)
+	key = fmt.Sprintf("%v|%v|%v|%s|ref:%v,%v,%v,%v,armed=%d,discs=%d,gens=%d,t7=%d,ln=%v,unreported=%v", v.State(), v.LastReacted(), v.Closed(), strings.Join(qs, ","),
+		r.A, r.connected, r.closeReq, r.closeDone, boolInt(r.armed != 0)*(1+r.dwell-r.armed), r.discs, r.gens, r.t7s, r.lastNotify, r.traj[r.notifyIdx+1:])
 	for a := action(0); a < nActions; a++ {
 		if r.enabled(a, v.State()) {
 			enabled = append(enabled, a)
